@@ -14,5 +14,8 @@ def groups(tier):
                   clause='apply: for every length >= 1, output[g] = input[g] ^ block(counter0 + g/64 mod 2^32)[g mod 64], |output| = |input|'),
             Group('apply.empty', 'chacha20', 'C09/apply.c', entry='h_apply_empty', unwind=65, kind='constant-unwind', bound='input length 0',
                   clause='apply on empty input yields empty output'),
+            Group('apply.e2e.len130', 'chacha20_e2e', 'C09/e2e.c', entry='h_apply_e2e', defines=['LEN=130', 'CXX_VEC_CAP=160', 'CXX_FIXED_STORAGE'], unwind=66, unwind_by={'vec_u8_resize': 132},
+                  backend=['cvc5', 'cadical'], kind='bounded', bound='input length 130 bytes (three blocks, last one partial); key, nonce, counter, data symbolic',
+                  timeout=900, checks=[], clause='apply == input XOR RFC 8439 keystream over three blocks incl. the 32-bit counter wrap, independent of the internal structure'),
             Group('apply.involution', None, 'C09/apply.c', entry='h_involution_lemma', kind='unbounded',
                   clause='lemma: (x ^ k) ^ k == x, hence apply(apply(x)) == x given apply.stream')]
